@@ -8,7 +8,7 @@
    those of get_template (C05's subject) and enter the statements only through chans_of.  WF d = the
    arrays of d have consistent shapes and every template id is below n_templates. *)
 From Coq Require Import ZArith List Lia Bool Arith Sorted.
-From PV Require Import Base.NpSearch C08.Model C08.Spec C08.Proofs C08.Proofs2 C08.Proofs3 C08.Proofs4.
+From PV Require Import Base.NpSearch C08.Model C08.Spec C08.Proofs C08.Proofs2 C08.Proofs3 C08.Proofs4 C08.Proofs5 C08.Proofs6 C08.Proofs7.
 Import ListNotations.
 Open Scope Z_scope.
 
@@ -70,6 +70,29 @@ Theorem C08_mean : forall (d : dset) (m : loaded) (c t1 t2 : Z),
 Proof. exact cluster_mean. Qed.
 Print Assumptions C08_mean.
 
+(* Ties.  The specification is relational in the dominant template; the code (np.argmax) takes the one of
+   lowest id, and on a cluster where one template has strictly more spikes than every other the dominant
+   template is unique, so C08_mean / C08_mean_fn determine the waveform there. *)
+Theorem C08_dominant_lowest : forall (d : dset) (c : Z) (unw : bool) (m : mw),
+  WF d -> mean_waveforms d c unw = Some m ->
+  exists tb, Dominant d c tb /\ mw_chans m = chans_of d unw tb /\
+             forall t, (t < tb)%nat -> cnt d c (Z.of_nat t) < cnt d c (Z.of_nat tb).
+Proof. exact mean_waveforms_lowest. Qed.
+Print Assumptions C08_dominant_lowest.
+
+Theorem C08_dominant_unique : forall (d : dset) (c : Z) (tb tb' : nat),
+  Dominant d c tb -> Dominant d c tb' ->
+  (forall t, (t < length (d_tmpl d))%nat -> t <> tb -> cnt d c (Z.of_nat t) < cnt d c (Z.of_nat tb)) -> tb' = tb.
+Proof. exact dominant_unique. Qed.
+Print Assumptions C08_dominant_unique.
+
+(* An id of [0, max] without spikes (reported in nan_idx by C08_merge_map_loaded) carries the zero waveform. *)
+Theorem C08_empty : forall (d : dset) (m : loaded) (c M : Z),
+  d_sc d <> d_st d -> load d = Some m -> IsMax M (d_sc d) -> 0 <= c <= M -> ~ In c (d_sc d) ->
+  nth_error (l_data m) (Z.to_nat c) = Some (repeat (repeat (rat_of 0) (n_channels d)) (n_samples_wf d)).
+Proof. exact cluster_empty. Qed.
+Print Assumptions C08_empty.
+
 (* When cluster and template assignments coincide: no merge map, the cluster waveforms are the template
    waveforms (one per template, used or not) and there are as many clusters as templates. *)
 Theorem C08_identity : forall (d : dset),
@@ -93,6 +116,20 @@ Theorem C08_loads : forall (d : dset),
 Proof. exact load_total. Qed.
 Print Assumptions C08_loads.
 
+(* Templates_OK holds on every well-formed data set whose geometry is well formed (GeoWF: one position and
+   one shank id per channel, at least one channel and one sample, pairwise distinct positions -- the loader
+   enforces the latter by falling back to linear positions): the peak channel is its own nearest channel
+   (head of the stable distance sort), lies on its own shank and reaches the amplitude threshold 0.
+   Hence loading succeeds, with no hypothesis on channel selection left. *)
+Theorem C08_templates_ok : forall (d : dset) (unw : bool), WF d -> GeoWF d -> Templates_OK d unw.
+Proof. exact templates_ok. Qed.
+Print Assumptions C08_templates_ok.
+
+Theorem C08_loads_wf : forall (d : dset),
+  WF d -> GeoWF d -> d_sc d <> [] -> (forall c, In c (d_sc d) -> 0 <= c) -> exists m, load d = Some m.
+Proof. intros d Hwf Hgeo. apply load_total; [exact Hwf|now apply templates_ok]. Qed.
+Print Assumptions C08_loads_wf.
+
 (* the weights are the provenance counts: template t has positive weight in cluster c exactly when some
    spike has cluster c and template t *)
 Theorem C08_weights : forall (d : dset) (c t : Z), 0 < cnt d c t <-> PairIn (d_st d) (d_sc d) c t.
@@ -106,6 +143,14 @@ Theorem C08_tables : forall (d : dset) (unw : bool) (c : Z) (tb s : nat) (k : Z)
   (mean_rows_f d c (tables_of d false c) (chans_of d false tb) = mean_rows d c tb).
 Proof. intros. split; [apply wnum_f_eq|apply mean_rows_f_eq]. Qed.
 Print Assumptions C08_tables.
+
+(* clauses 21 and 22 of the correspondence, evaluated on the OBSERVED merge_map.items() and nan_idx, imply
+   the provenance statement for the observation: keys exactly 0..max, every value strictly increasing and
+   equal as a set to the templates of the key's spikes; nan_idx = the increasing ids of [0, max] without spikes *)
+Theorem C08_provenance_checker_sound : forall (st sc : list Z) (omm : list (Z * list Z)) (onan : list Z),
+  (mm_b st sc omm = true -> MM_Obs_Spec st sc omm) /\ (nan_b sc onan = true -> Nan_Obs_Spec sc onan).
+Proof. intros. split; [apply mm_b_sound|apply nan_b_sound]. Qed.
+Print Assumptions C08_provenance_checker_sound.
 
 (* the boolean checkers used by the correspondence decide the declarative notions *)
 Theorem C08_checkers : forall (d : dset) (c : Z) (tb : nat),
@@ -126,6 +171,13 @@ Example C08_ex_merge_map :
 Proof. vm_compute. split; reflexivity. Qed.
 Example C08_ex_wf : wf_b ex_d = true.
 Proof. vm_compute. reflexivity. Qed.
+Example C08_ex_geo : GeoWF ex_d.
+Proof.
+  repeat split; try (cbn; lia).
+  intros i j xi yi xj yj Hij Hxi Hyi Hxj Hyj E. injection E as -> ->.
+  destruct i as [|[|[|i]]], j as [|[|[|j]]]; cbn in *; try congruence; try lia;
+    try (destruct i; discriminate); try (destruct j; discriminate).
+Qed.
 Example C08_ex_loads : exists m, load ex_d = Some m /\ l_ncl m = 6 /\
   nth_error (l_data m) 5 = Some (single_rows ex_d 2) /\          (* cluster 5 <- template 2 only *)
   nth_error (l_data m) 3 = Some (mean_rows ex_d 3 0) /\          (* cluster 3 <- templates 0 and 1, one spike each *)
@@ -139,6 +191,8 @@ Proof.
 Qed.
 Example C08_ex_templates_ok : forall t, (t < 3)%nat -> get_template ex_d t false <> None /\ get_template ex_d t true <> None.
 Proof. intros [|[|[|t]]] H; try lia; split; vm_compute; discriminate. Qed.
+Example C08_ex_empty : IsMax 5 (d_sc ex_d) /\ ~ In 2 (d_sc ex_d).
+Proof. split; [split; [cbn; tauto|intros x H; cbn in H; lia]|cbn; lia]. Qed.
 Example C08_ex_mean_fn : exists m, mean_waveforms ex_d 1 true = Some m /\ mw_den m = 2 /\ mw_chans m = [2].
 Proof. eexists. split; [vm_compute; reflexivity|]. split; reflexivity. Qed.
 Example C08_ex_identity :
